@@ -24,39 +24,40 @@
 
   THE RECORD SCANNERS (`seqio.GenBankParser` with `genbankLocusParser`, every field sub-parser,
   `tryAllParsers`, the ORIGIN reader, `INSDCTableParser`; model: Gts/Model/GenBankParse.lean,
-  InsdcParse.lean, Origin.lean; lemmas: Gts/Lemmas/ParsSorted.lean, GbSafe*.lean, GbFuel.lean,
-  GbOriginDecode.lean, FastaScan.lean):
+  InsdcParse.lean, Origin.lean; lemmas: Gts/Lemmas/ParsSorted.lean, GbSafe*.lean, ParsProgress.lean,
+  GbProgress.lean, GbFuel.lean, GbOriginDecode.lean, FastaScan.lean):
 
-  * NO PANIC, for every byte string shorter than 10^9 bytes, from every sorted state
-    (`genbankParser_nopanic_partial`, `readAll_nopanic_partial`, `table_nopanic`,
-    `originField_nopanic`, `validateOrigin_nopanic`).  The field parsers `Clear` the stack and `Pop`
-    frames that are not theirs, so the frame invariant `Fr` of the string parsers is replaced by
-    the S-invariant "all saved positions sorted and bounded" (`Fr L [] 0`); `patchFrames` (the
-    DEFINITION body joined in place) keeps every frame's length because the LOCUS parser reports
-    an indent of at least five columns.  The ORIGIN reader's three panic sites need the range check
-    of `GenBankParser` and `length < 10^9`, which follows from the bytes left.
+  * NO PANIC, for EVERY byte string and every registry, from every sorted state
+    (`genbankParser_nopanic`, `readAll_nopanic`, `table_nopanic`, `originField_nopanic`,
+    `validateOrigin_nopanic`; the `_partial` forms with the former bound of 10^9 bytes are kept as
+    corollaries).  The field parsers `Clear` the stack and `Pop` on a possibly empty one, so the
+    frame invariant `Fr` of the string parsers is replaced by the S-invariant "all saved positions
+    sorted and bounded" (`Fr L [] 0`); `patchFrames` (the DEFINITION body joined in place) keeps
+    every frame's length because the LOCUS parser reports an indent of at least five columns.  The
+    ORIGIN reader's three panic sites need the range check of `GenBankParser` and the guard
+    `length ≤ 1000000020` of be672b0, which is EXACTLY the largest length whose line indices fit
+    nine columns (`validateOrigin_nopanic` for `≤ 1000000020`, `validateOrigin_wide_index_panics`
+    at 1000000021).
   * INTERNAL CONSISTENCY (`genbank_length_consistent`, `genbank_sequence_decodes`,
     `originField_decodes`, `accepted_block_is_written`): a returned record has
     declared length = `Origin.Len()` = number of residues `Origin.Bytes()` decodes (no panic), or
-    no sequence at all next to a CONTIG line.
+    no sequence at all next to a CONTIG line — for every declared length.
   * FUEL (`bodyMore_fuel_stable`, `taxonMore_fuel_stable`, `dblinkMore_fuel_stable`,
-    `parseAll_fuel_stable_partial`, `recordLoop_fuel_partial`).
+    `parseAll_fuel_stable`, `recordLoop_fuel_stable`, `recordLoop_fuel_full`,
+    `genbankParser_loop_fuel`, `recordLoop_fuel_partial`): the record loop makes at most
+    `bytes left + 1` iterations from any sorted state (since 66de3a0; the forward invariant
+    `Pars.Fw`: no sub-parser pops a saved position that is older than its own entry).
 
   PARTIAL, named as such (DESIGN.md section 6, C07):
   * "time proportional to the input" is NOT a Lean theorem.  What is proved is termination with an
-    explicit measure; no step count is stated.
+    explicit measure and a linear bound on the ITERATIONS of the record loop and of the scan loop;
+    the work inside one iteration (eleven sub-parsers, each of which may read ahead over
+    continuation lines and restore) is not counted.
   * stack exhaustion of the Go run time on deeply nested `complement(` and the memory held by
     leaked `Push` frames are below the level of the model; they are covered by the depth sweep of
     the harness (recorded in the evidence), not by a theorem.
-  * the bound of 10^9 bytes on the record scanner's input is needed: beyond it `validateOrigin`
-    indexes past its buffer on a well-formed block (`validateOrigin_wide_index_panics`; a finding
-    about the code, it needs more than a gigabyte of input).
-  * the fuel `2n+2` of the record loop is NOT adequate in general (`recordLoop_fuel_full_refuted`):
-    leaked location-parser frames plus a SOURCE field without ORGANISM make the scanner re-read
-    lines, quadratically often (a finding about the code: a 28 KB record takes 22 s).  Proved
-    instead: running out of fuel can only show up as the error value.  The loops of the qualifier
-    and feature-table readers (`qualifiers`, `tableMore`, `literalMore`) and `refSubfields` have
-    no fuel theorem.
+  * the loops of the qualifier and feature-table readers (`qualifiers`, `tableMore`,
+    `literalMore`) and `refSubfields` have no fuel theorem.
   * the FASTA scanner is covered on its modelled fragment (`fasta_scan_nopanic`); K7C is about
     content, not panics.
 -/
@@ -305,81 +306,104 @@ example : let rest := GenBank.bs "     source          1..4\n                   
   refine ⟨?_, trivial⟩
   decide +kernel
 
-/-- `validateOrigin(p, length)` indexes `p` without bounds checks.  For a declared length below
-10^9 and a buffer of at least `toOriginLength(length)` bytes (the reader hands it exactly that
-many) no index is out of range, whatever the bytes are. -/
-theorem validateOrigin_nopanic (p : Bytes) (length : Nat) (hL : length < 10 ^ 9)
+/-- `validateOrigin(p, length)` indexes `p` without bounds checks.  For a declared length of at
+most 1000000020 (`maxOriginResidues`, the guard of `makeGenbankOriginParser` since be672b0) and a
+buffer of at least `toOriginLength(length)` bytes (the reader hands it exactly that many) no index
+is out of range, whatever the bytes are: the lines start at residue `i + 1` with `i` a multiple of
+60 below `length`, so `i ≤ 999999960` and the `%9d` index is nine columns wide.  (Was stated for
+`length < 10^9`; the constant of the Go code is exactly the largest for which this holds, see
+`validateOrigin_wide_index_panics`.) -/
+theorem validateOrigin_nopanic (p : Bytes) (length : Nat) (hL : length ≤ 1000000020)
     (hp : (Origin.toOriginLength (length : Int)).toNat ≤ p.length) :
     Origin.validateOrigin p (length : Int) ≠ .error .panic :=
-  Origin.validateOrigin_ne_panic p length hL (by rwa [Origin.toNat_tl] at hp)
+  Origin.validateOrigin_ne_panic_le p length hL (by rwa [Origin.toNat_tl] at hp)
 
-/-- the bound `length < 10^9` of `validateOrigin_nopanic` cannot be dropped: for a declared length
-of 1000000021 the last line index has ten digits; in its last round (`i = 1000000020`, one residue
-to go) the loop of `validateOrigin` stands before the last `toOriginLength(1) = 12` bytes of its
-buffer, and on the well-formed line `1000000021 a` (ten digits, a blank, the residue: twelve bytes)
-`p[offset] != '\n'` indexes one byte past the end: a run-time panic. -/
+/-- the bound `length ≤ 1000000020` of `validateOrigin_nopanic` cannot be raised by a single
+residue: for a declared length of 1000000021 the last line index has ten digits; in its last round
+(`i = 1000000020`, one residue to go) the loop of `validateOrigin` stands before the last
+`toOriginLength(1) = 12` bytes of its buffer, and on the well-formed line `1000000021 a` (ten
+digits, a blank, the residue: twelve bytes) `p[offset] != '\n'` indexes one byte past the end: a
+run-time panic.  This is about `validateOrigin` itself; since be672b0 the ORIGIN reader refuses
+such a length before it calls `validateOrigin` (`originField_nopanic`). -/
 theorem validateOrigin_wide_index_panics :
     Origin.validateLines 1000000021 1 1000000020 (GenBank.bs "1000000021 a") = .error .panic ∧
       (GenBank.bs "1000000021 a").length = (Origin.toOriginLength (1000000021 - 1000000020)).toNat := by
   decide +kernel
 
 /-- the ORIGIN reader `makeGenbankOriginParser(length)` for a declared length that passed the
-range check of `GenBankParser` (`0 ≤ length`), from any sorted state with fewer than 10^9 bytes
-left, for any bytes: never a panic (not the negative `Request`, not `validateOrigin`'s indexing,
-not the slow path's `p[offset] = '\n'`), and the final state is sorted. -/
+range check of `GenBankParser` (`0 ≤ length`), from ANY sorted state, for any bytes: never a panic
+(not the negative `Request`, not `validateOrigin`'s indexing — a length above 1000000020 is
+refused first —, not the slow path's `p[offset] = '\n'`), and the final state is sorted.  (Before
+be672b0 this needed fewer than 10^9 bytes left.) -/
 theorem originField_nopanic (length : Int) (depth : Nat) (h0 : 0 ≤ length) (s : PS)
-    (hs : Sorted s.rest.length s.stk) (hb : ∀ f ∈ s.stk, f.length < 10 ^ 9)
-    (hlen : s.rest.length < 10 ^ 9) :
+    (hs : Sorted s.rest.length s.stk) :
     ((GenBank.originField length depth).run' s).1 ≠ .error .panic ∧
       Sorted ((GenBank.originField length depth).run' s).2.rest.length
         ((GenBank.originField length depth).run' s).2.stk := by
-  have h : Fr (10 ^ 9 - 1) [] 0 s :=
-    Fr.mk0 (fun f hf => by have := hb f hf; omega) (by omega) hs
-  have := GenBank.originField_safeS (L := 10 ^ 9 - 1) length depth h0 (by omega) s h
+  obtain ⟨L, h⟩ := GenBank.exists_bound s hs
+  have := GenBank.originField_safeS (L := L) length depth h0 s h
   exact ⟨this.1, this.2.srt⟩
 
-/- FULL statement (the target), which is FALSE for the code as it is:
-
-     theorem genbankParser_nopanic (reg) (s : PS) (hs : Sorted s.rest.length s.stk) :
-         ((GenBank.genbankParser reg).run' s).1 ≠ .error .panic
-
-   What is missing: the bound on the input size below.  `validateOrigin` assumes that the line
-   index `fmt.Sprintf("%9d", i+1)` is nine columns wide.  For a declared length of at least
-   10^9 + 21 the last line indices have ten digits; on a WELL-FORMED block of that size every line
-   from there on is one byte longer than `toOriginLength` accounts for, and `p[offset] != '\n'`
-   (genbank_subparsers.go:404) indexes past the end of the requested buffer: a run-time panic.
-   The input needed has more than 1.2 * 10^9 bytes, so the guard is an explicit bound on the bytes
-   left; everything below it is proved for EVERY byte string. -/
+/-- non-vacuity of the three statements above: the block of the four-residue sample is long
+enough for `validateOrigin`; the ORIGIN reader accepts it from a sorted state with a saved
+position; a declared length of 1000000021 is refused (class 1 = error value) before anything is
+indexed, 1000000020 fails at the `Request` -/
+example : (Origin.toOriginLength ((4 : Nat) : Int)).toNat ≤ (GenBank.bs "        1 acgt\n").length ∧
+    Sorted (PS.mk (GenBank.bs "ORIGIN      \n        1 acgt\n//\n")
+      [GenBank.bs "ORIGIN      \n        1 acgt\n//\n"]).rest.length
+      [GenBank.bs "ORIGIN      \n        1 acgt\n//\n"] ∧
+    ((GenBank.originField 4 12).run' ⟨GenBank.bs "ORIGIN      \n        1 acgt\n//\n",
+      [GenBank.bs "ORIGIN      \n        1 acgt\n//\n"]⟩).1 = .ok (GenBank.bs "        1 acgt\n") ∧
+    cls ((GenBank.originField 1000000021 12).run' ⟨GenBank.bs "ORIGIN      \n        1 acgt\n//\n", []⟩).1 = 1 ∧
+    cls ((GenBank.originField 1000000020 12).run' ⟨GenBank.bs "ORIGIN      \n        1 acgt\n//\n", []⟩).1 = 1 := by
+  refine ⟨by decide +kernel, ⟨Nat.le_refl _, trivial⟩, ?_⟩
+  decide +kernel
 
 /-- `seqio.GenBankParser`, entered in ANY state whose saved positions are sorted (in particular
-the fresh state of a scanner) with fewer than 10^9 bytes left, for ANY bytes and any qualifier
-registry: never a panic — neither the `Trail` slice panic (LOCUS line, field names and bodies,
-`tryAllParsers` with its Push / Pop / Drop / Clear traffic, the in-place joined DEFINITION body,
-the feature table) nor one of the ORIGIN reader's — and the final state is sorted and not before
-the entry position. -/
-theorem genbankParser_nopanic_partial (reg : GenBank.Registry) (s : PS)
-    (hs : Sorted s.rest.length s.stk) (hlen : s.rest.length < 10 ^ 9) :
+the fresh state of a scanner), for ANY bytes and any qualifier registry: never a panic — neither
+the `Trail` slice panic (LOCUS line, field names and bodies, `tryAllParsers` with its Push / Pop /
+Drop / Clear traffic, the in-place joined DEFINITION body, the feature table) nor one of the ORIGIN
+reader's — and the final state is sorted and not before the entry position.
+(The FULL statement; before be672b0 it was false — `validateOrigin` panicked on a well-formed
+block of more than 1000000020 residues — and only the `_partial` form below was proved.) -/
+theorem genbankParser_nopanic (reg : GenBank.Registry) (s : PS)
+    (hs : Sorted s.rest.length s.stk) :
     ((GenBank.genbankParser reg).run' s).1 ≠ .error .panic ∧
       Sorted ((GenBank.genbankParser reg).run' s).2.rest.length
         ((GenBank.genbankParser reg).run' s).2.stk ∧
       ((GenBank.genbankParser reg).run' s).2.rest.length ≤ s.rest.length :=
-  GenBank.genbankParser_wp reg s hs hlen
+  GenBank.genbankParser_wp reg s hs
 
-/-- … in particular on the fresh state of `pars.FromBytes(input)`, for EVERY byte string shorter
-than 10^9 bytes. -/
-theorem genbankParser_fresh_nopanic_partial (reg : GenBank.Registry) (input : Bytes)
-    (hlen : input.length < 10 ^ 9) :
+/-- corollary kept under its old name: the same with fewer than 10^9 bytes left (the hypothesis
+is no longer used) -/
+theorem genbankParser_nopanic_partial (reg : GenBank.Registry) (s : PS)
+    (hs : Sorted s.rest.length s.stk) (_hlen : s.rest.length < 10 ^ 9) :
+    ((GenBank.genbankParser reg).run' s).1 ≠ .error .panic ∧
+      Sorted ((GenBank.genbankParser reg).run' s).2.rest.length
+        ((GenBank.genbankParser reg).run' s).2.stk ∧
+      ((GenBank.genbankParser reg).run' s).2.rest.length ≤ s.rest.length :=
+  genbankParser_nopanic reg s hs
+
+/-- … in particular on the fresh state of `pars.FromBytes(input)`, for EVERY byte string. -/
+theorem genbankParser_fresh_nopanic (reg : GenBank.Registry) (input : Bytes) :
     ((GenBank.genbankParser reg).run' ⟨input, []⟩).1 ≠ .error .panic :=
-  (GenBank.genbankParser_wp reg ⟨input, []⟩ trivial hlen).1
+  (GenBank.genbankParser_wp reg ⟨input, []⟩ trivial).1
 
-/- FULL statement: `theorem readAll_nopanic (reg) (input) : GenBank.readAll reg input ≠ none`;
-   missing for the same reason as above. -/
+/-- corollary kept under its old name (byte strings shorter than 10^9 bytes) -/
+theorem genbankParser_fresh_nopanic_partial (reg : GenBank.Registry) (input : Bytes)
+    (_hlen : input.length < 10 ^ 9) :
+    ((GenBank.genbankParser reg).run' ⟨input, []⟩).1 ≠ .error .panic :=
+  genbankParser_fresh_nopanic reg input
 
-/-- Scanning ANY byte stream shorter than 10^9 bytes as GenBank (record after record until the
-input is used up or a record fails) never panics. -/
+/-- Scanning ANY byte stream as GenBank (record after record until the input is used up or a
+record fails) never panics.  (The FULL statement, for every byte string and every registry.) -/
+theorem readAll_nopanic (reg : GenBank.Registry) (input : Bytes) : GenBank.readAll reg input ≠ none :=
+  GenBank.parseAll_ne_none _ reg input []
+
+/-- corollary kept under its old name (byte streams shorter than 10^9 bytes) -/
 theorem readAll_nopanic_partial (reg : GenBank.Registry) (input : Bytes)
-    (hlen : input.length < 10 ^ 9) : GenBank.readAll reg input ≠ none :=
-  GenBank.parseAll_ne_none _ reg input [] hlen
+    (_hlen : input.length < 10 ^ 9) : GenBank.readAll reg input ≠ none :=
+  readAll_nopanic reg input
 
 /-- the LOCUS length of the record that starts at `s`, as `genbankLocusParser` reads it
 (specification helper: re-reads the LOCUS line, nothing else) -/
@@ -407,9 +431,9 @@ def sampleRecord : Bytes :=
   GenBank.bs "LOCUS       X 4 bp DNA linear UNA 01-JAN-2000\nDEFINITION  d.\nORIGIN      \n        1 acgt\n//\n"
 
 /-- non-vacuity: the sample record (fresh state: sorted, 88 bytes) is accepted with `Len() = 4`
-= the declared length; with one residue missing, one too many or a negative length the same text
-is an error value (class 1), not a panic and not a shorter sequence; two records in one stream are
-both read -/
+= the declared length; with one residue missing, one too many, a negative length or a length the
+nine column index cannot number (1000000021) the same text is an error value (class 1), not a
+panic and not a shorter sequence; two records in one stream are both read -/
 example : Sorted (PS.mk sampleRecord []).rest.length (PS.mk sampleRecord []).stk ∧
     sampleRecord.length < 10 ^ 9 ∧
     ((GenBank.genbankParser GenBank.Registry.default).run' ⟨sampleRecord, []⟩).1.toOption.map
@@ -423,6 +447,8 @@ example : Sorted (PS.mk sampleRecord []).rest.length (PS.mk sampleRecord []).stk
       "LOCUS       X -4 bp DNA linear UNA 01-JAN-2000\nORIGIN      \n        1 acgt\n//\n", []⟩).1 = 1 ∧
     cls ((GenBank.genbankParser GenBank.Registry.default).run' ⟨GenBank.bs
       "LOCUS       X 4 bp DNA linear UNA 01-JAN-2000\n//\n", []⟩).1 = 1 ∧
+    cls ((GenBank.genbankParser GenBank.Registry.default).run' ⟨GenBank.bs
+      "LOCUS       X 1000000021 bp DNA linear UNA 01-JAN-2000\nORIGIN      \n        1 acgt\n//\n", []⟩).1 = 1 ∧
     (GenBank.readAll GenBank.Registry.default (sampleRecord ++ sampleRecord)).map
       (fun r => (r.1.length, r.2.2)) = some (2, true) := by
   refine ⟨trivial, ?_⟩
@@ -431,37 +457,38 @@ example : Sorted (PS.mk sampleRecord []).rest.length (PS.mk sampleRecord []).stk
 /-! ## the sequence of an accepted record decodes to the declared number of residues -/
 
 /-- `validateOrigin` accepts nothing but written blocks: a buffer of `toOriginLength(L)` bytes
-that it accepts (`L < 10^9`) is byte for byte the block `NewOrigin` writes for `L` printable
-residues … -/
-theorem accepted_block_is_written (b : Bytes) (L : Nat) (hL : L < 10 ^ 9)
+that it accepts (`L ≤ 1000000020`, the guard of the reader; was `L < 10^9`) is byte for byte the
+block `NewOrigin` writes for `L` printable residues … -/
+theorem accepted_block_is_written (b : Bytes) (L : Nat) (hL : L ≤ 1000000020)
     (hb : b.length = (Origin.toOriginLength (L : Int)).toNat)
     (h : Origin.validateOrigin b (L : Int) = .ok ()) :
     ∃ p, b = Origin.originStream p ∧ (∀ c ∈ p, Origin.isBase c = true) ∧ p.length = L :=
-  Origin.validateOrigin_inv b L hL (by rw [hb, Origin.toNat_tl]) h
+  Origin.validateOrigin_inv_le b L hL (by rw [hb, Origin.toNat_tl]) h
 
 /-- … and whatever the ORIGIN reader `makeGenbankOriginParser(length)` returns (fast or slow
-path, `0 ≤ length < 10^9`) is such a block: `Origin.Bytes()` on it does not panic and yields
-exactly `length` printable residues. -/
-theorem originField_decodes (length : Nat) (depth : Nat) (hL : length < 10 ^ 9) (s s' : PS)
+path, any `0 ≤ length`: a length above 1000000020 returns nothing) is such a block:
+`Origin.Bytes()` on it does not panic and yields exactly `length` printable residues. -/
+theorem originField_decodes (length : Nat) (depth : Nat) (s s' : PS)
     (b : Bytes) (h : (GenBank.originField (length : Int) depth).run' s = (.ok b, s')) :
     ∃ p, Origin.originBytes b = .ok p ∧ p.length = length ∧ (∀ c ∈ p, Origin.isBase c = true) ∧
       b = Origin.originStream p := by
-  have := GenBank.originField_accepted length depth hL s
+  have := GenBank.originField_accepted length depth s
   unfold WP at this
   rw [h] at this
-  obtain ⟨hv, hl⟩ := this b rfl
-  exact Origin.accepted_decodes b length hL hl hv
+  obtain ⟨hL, hv, hl⟩ := this b rfl
+  exact Origin.accepted_decodes_le b length hL hl hv
 
-/-- INTERNAL CONSISTENCY, residues: every record `GenBankParser` returns whose LOCUS line declares
-fewer than 10^9 residues carries a sequence that `Origin.Bytes()` decodes WITHOUT a panic to
-exactly `Origin.Len()` residues, all printable — together with `genbank_length_consistent`:
-declared length = `Len()` = number of residues (or no sequence next to a CONTIG line). -/
+/-- INTERNAL CONSISTENCY, residues: every record `GenBankParser` returns (whatever its LOCUS line
+declares; the restriction to fewer than 10^9 residues is gone with be672b0) carries a sequence
+that `Origin.Bytes()` decodes WITHOUT a panic to exactly `Origin.Len()` residues, all printable —
+together with `genbank_length_consistent`: declared length = `Len()` = number of residues (or no
+sequence next to a CONTIG line). -/
 theorem genbank_sequence_decodes (reg : GenBank.Registry) (s : PS) (r : GenBank.Record)
     (reg' : GenBank.Registry) (s' : PS)
     (h : (GenBank.genbankParser reg).run' s = (.ok (r, reg'), s')) :
-    ∃ n, declaredLength s = some n ∧ (n < 10 ^ 9 →
+    ∃ n, declaredLength s = some n ∧
       ∃ p, r.origin.bytes = .ok p ∧ (p.length : Int) = r.origin.len ∧
-        ∀ c ∈ p, Origin.isBase c = true) := by
+        ∀ c ∈ p, Origin.isBase c = true := by
   obtain ⟨l, s1, hl, hd⟩ := GenBank.genbankParser_decodes reg s r reg' s' h
   refine ⟨l.length, ?_, hd⟩
   unfold declaredLength
@@ -479,38 +506,54 @@ example : ((GenBank.genbankParser GenBank.Registry.default).run' ⟨sampleRecord
 
 /-! ## the loops of the GenBank reader: fuel ("never hangs") -/
 
-/- FULL statement (same shape as `loc_fuel_stable`), which is FALSE:
+/-- THE RECORD LOOP NEVER RUNS OUT OF FUEL ("never loops forever", the loop of `GenBankParser`):
+from ANY state whose saved positions are sorted — also with positions on the stack that earlier
+parsers leaked — every iteration either ends the loop (end mark, hard failure, end of input) or
+leaves strictly fewer bytes: a parsed field has consumed its name, a skipped line at least one
+byte, and no sub-parser ever goes back behind the position where the iteration began.  Hence the
+fuel is an iteration counter that is never used up once it exceeds the number of bytes left: any
+two such fuels give the same outcome and the same final state.  THE NUMBER OF ITERATIONS IS AT MOST
+`bytes left + 1`.  (`depth ≥ 1`: `genbankLocusParser` reports an indent of at least 5, see
+`genbankParser_loop_fuel`.)
 
-     theorem recordLoop_fuel_stable (length depth sub) (s : PS) (hs : Sorted s.rest.length s.stk)
-         (n m : Nat) (hn : 2 * s.rest.length + 2 ≤ n) (hnm : n ≤ m) :
-         (recordLoop length depth n sub).run' s = (recordLoop length depth m sub).run' s
+Before 66de3a0 this was FALSE and its negation was the theorem `recordLoop_fuel_full_refuted`
+(removed): a SOURCE field without ORGANISM popped the frame of `tryAllParsers` AND one more saved
+position; with frames leaked by a failing location parser on the stack the scan went back and read
+the lines in between again, once per leaked frame — quadratically often (F34: 7 KB took 1.6 s,
+28 KB 42 s on the real code).  The parser now clears the stack there and fails the record. -/
+theorem recordLoop_fuel_stable (length : Int) (depth : Nat) (hd : 1 ≤ depth) (sub : GenBank.Sub)
+    (s : PS) (hs : Sorted s.rest.length s.stk) (n m : Nat) (hn : s.rest.length < n)
+    (hm : s.rest.length < m) :
+    (GenBank.recordLoop length depth n sub).run' s = (GenBank.recordLoop length depth m sub).run' s :=
+  GenBank.recordLoop_fuel length depth hd n m sub s hs hn hm
 
-   The loop of `GenBankParser` does NOT consume input in every iteration: a SOURCE field without
-   ORGANISM pops the frame of `tryAllParsers` AND one more saved position; if a failing location
-   parser inside the feature table has leaked frames, that position lies BEFORE the current one
-   and the lines in between are read again, once per leaked frame.  The number of iterations is
-   quadratic in the input size (`join(join(…(1^3` leaks one frame per five bytes).  On the real
-   code a 28 KB record of that shape takes 22 s (measured; ten times the size, a hundred times as
-   long).  Refuted below from a
-   sorted state; from the FRESH state the model shows the same on
-   `FEATURES⏎a 1⏎a join(×20 1^3⏎ (x⏎)×20 SOURCE      x⏎//⏎` (176 bytes, 422 iterations against a
-   fuel of 354; evaluated with `#eval`, not a theorem: the kernel cannot run the well-founded
-   `LocParse.loc`).  On this family the model (out of fuel) and the code (hard failure at the last
-   reading of the SOURCE line) both end in an error. -/
+/-- the statement in the shape it was refuted in (fuel `2·bytes + 2` as in `GenBankParser`, and
+any larger fuel) -/
+theorem recordLoop_fuel_full (length : Int) (depth : Nat) (hd : 1 ≤ depth) (sub : GenBank.Sub)
+    (s : PS) (hs : Sorted s.rest.length s.stk) (n m : Nat) (hn : 2 * s.rest.length + 2 ≤ n)
+    (hnm : n ≤ m) :
+    (GenBank.recordLoop length depth n sub).run' s = (GenBank.recordLoop length depth m sub).run' s :=
+  recordLoop_fuel_stable length depth hd sub s hs n m (by omega) (by omega)
 
-/-- the refuted full statement: from the sorted state `GenBank.rescanState` (37 bytes left: twenty
-empty lines and a SOURCE field without ORGANISM; three saved copies of that position) fuel
-`76 = 2·37+2` and fuel `200` end in different states -/
-theorem recordLoop_fuel_full_refuted :
-    ¬ ∀ (length : Int) (depth : Nat) (sub : GenBank.Sub) (s : PS), Sorted s.rest.length s.stk →
-      ∀ n m, 2 * s.rest.length + 2 ≤ n → n ≤ m →
-        (GenBank.recordLoop length depth n sub).run' s =
-          (GenBank.recordLoop length depth m sub).run' s :=
-  GenBank.recordLoop_fuel_refuted
+/-- … as `GenBankParser` runs it: behind a LOCUS line that was read (its indent is the `depth`),
+on the cleared stack, the fuel `2n+2` it passes gives what every fuel above the `n` bytes left
+gives — in particular `n + 1`: the loop makes at most `n + 1` iterations. -/
+theorem genbankParser_loop_fuel (s s1 : PS) (l : GenBank.Locus)
+    (h : GenBank.locusParser.run' s = (.ok l, s1)) (sub : GenBank.Sub) (m : Nat)
+    (hm : s1.rest.length < m) :
+    (GenBank.recordLoop l.length l.depth (2 * s1.rest.length + 2) sub).run' ⟨s1.rest, []⟩ =
+      (GenBank.recordLoop l.length l.depth m sub).run' ⟨s1.rest, []⟩ := by
+  have hd := GenBank.locusParser_depth s
+  unfold WP at hd
+  rw [h] at hd
+  have := hd l rfl
+  exact recordLoop_fuel_stable l.length l.depth (by omega) sub ⟨s1.rest, []⟩ trivial _ _
+    (by show s1.rest.length < _; omega) hm
 
-/-- what holds of the record loop's fuel: running out of it can only ever show up as the error
-value.  An outcome other than that error — a record, or a panic — and its final state are the
-same for every larger fuel: no record is ever lost or altered by the fuel. -/
+/-- the weaker statement that was all that held before 66de3a0 (kept; it needs neither the sorted
+state nor `depth ≥ 1`): running out of fuel can only ever show up as the error value.  An outcome
+other than that error — a record, or a panic — and its final state are the same for every larger
+fuel: no record is ever lost or altered by the fuel. -/
 theorem recordLoop_fuel_partial (length : Int) (depth : Nat) (k m : Nat) (sub : GenBank.Sub)
     (s s' : PS) (r : Except Err GenBank.Sub)
     (h : (GenBank.recordLoop length depth k sub).run' s = (r, s')) (hr : r ≠ .error .fail)
@@ -538,29 +581,40 @@ theorem dblinkMore_fuel_stable (depth : Nat) (hd : 1 ≤ depth) (n m : Nat) (f :
   GenBank.dblinkMore_fuel depth hd n m f s hn hm
 
 /-- a record that `GenBankParser` returns has consumed at least the five bytes of `LOCUS`
-(from any sorted state, fewer than 10^9 bytes left) … -/
+(from any sorted state) … -/
 theorem genbankParser_consumes (reg : GenBank.Registry) (s : PS) (hs : Sorted s.rest.length s.stk)
-    (hlen : s.rest.length < 10 ^ 9) (v : GenBank.Record × GenBank.Registry)
+    (v : GenBank.Record × GenBank.Registry)
     (h : ((GenBank.genbankParser reg).run' s).1 = .ok v) :
     ((GenBank.genbankParser reg).run' s).2.rest.length + 5 ≤ s.rest.length :=
-  GenBank.genbankParser_consumes reg s hs hlen v h
+  GenBank.genbankParser_consumes reg s hs v h
 
 /-- … so the scan loop's fuel `len(input) + 1` is adequate: any two fuels above the number of
-bytes give the same records (input shorter than 10^9 bytes; the bound is only there because the
-proof goes through the no-panic invariant). -/
+bytes give the same records, for every byte string. -/
+theorem parseAll_fuel_stable (reg : GenBank.Registry) (input : Bytes)
+    (acc : List GenBank.Record) (n m : Nat) (hn : input.length < n) (hm : input.length < m) :
+    GenBank.parseAll reg n input acc = GenBank.parseAll reg m input acc :=
+  GenBank.parseAll_fuel n m reg input acc hn hm
+
+/-- corollary kept under its old name (input shorter than 10^9 bytes) -/
 theorem parseAll_fuel_stable_partial (reg : GenBank.Registry) (input : Bytes)
-    (acc : List GenBank.Record) (n m : Nat) (hlen : input.length < 10 ^ 9)
+    (acc : List GenBank.Record) (n m : Nat) (_hlen : input.length < 10 ^ 9)
     (hn : input.length < n) (hm : input.length < m) :
     GenBank.parseAll reg n input acc = GenBank.parseAll reg m input acc :=
-  GenBank.parseAll_fuel n m reg input acc hlen hn hm
+  parseAll_fuel_stable reg input acc n m hn hm
 
-/-- non-vacuity: the refuting state is sorted and the two fuels are at least `2n+2`; in the sample
-record the body loop runs with `depth = 12`, and the scan loop on two records agrees for the
-fuels 177 and 1000 -/
+/-- non-vacuity: the state that used to refute the fuel statement (37 bytes left: twenty empty
+lines and a SOURCE field without ORGANISM; three saved copies of that position) is sorted, the
+fuels 38, 76 = 2·37+2 and 200 are above the bytes left, and all three now end in the same state,
+3 bytes before the end (the first reading of the SOURCE line fails the record; it used to be 21
+resp. 17 bytes for the fuels 76 and 200); the LOCUS line of the sample is read with `depth = 12`;
+in the sample record the body loop runs with that depth, and the scan loop on two records agrees
+for the fuels 177 and 1000 -/
 example : Sorted GenBank.rescanState.rest.length GenBank.rescanState.stk ∧
-    2 * GenBank.rescanState.rest.length + 2 ≤ 76 ∧
-    ((GenBank.recordLoop 0 12 76 GenBank.sub0).run' GenBank.rescanState).2.rest.length = 21 ∧
-    ((GenBank.recordLoop 0 12 200 GenBank.sub0).run' GenBank.rescanState).2.rest.length = 17 ∧
+    GenBank.rescanState.rest.length < 38 ∧ 2 * GenBank.rescanState.rest.length + 2 ≤ 76 ∧
+    ((GenBank.recordLoop 0 12 38 GenBank.sub0).run' GenBank.rescanState).2.rest.length = 3 ∧
+    ((GenBank.recordLoop 0 12 76 GenBank.sub0).run' GenBank.rescanState).2.rest.length = 3 ∧
+    ((GenBank.recordLoop 0 12 200 GenBank.sub0).run' GenBank.rescanState).2.rest.length = 3 ∧
+    cls ((GenBank.recordLoop 0 12 38 GenBank.sub0).run' GenBank.rescanState).1 = 1 ∧
     (GenBank.locusParser.run' ⟨sampleRecord, []⟩).1.toOption.map (·.depth) = some 12 ∧
     (GenBank.parseAll GenBank.Registry.default 177 (sampleRecord ++ sampleRecord) []).map
       (fun r => r.1.length) = some 2 ∧
